@@ -18,17 +18,20 @@ class C15(Check):
     rules = {
         "Z1": "a successful course is returned by integrate_to_steady_state only under the dominating test "
               "`norm(change between consecutive iterates) < tolerance`; the iterate is advanced every step; the loop's fall-through is the failure value",
+        "Z3": "the previous iterate is a private copy: a value bound directly to the result of the third-party stepper (which hands out its "
+              "internal, reused state buffer) must not be carried as the reference state - `prev = cur` without a copy aliases the buffer and the "
+              "measured change is identically zero",
         "Z2": "failure plumbing: the integrator's result goes to the result handler, failures land in Simulator._errors, get_result returns "
               "the first error before looking at frames, Result.default substitutes only for exceptions",
     }
-    floors = {"Z1": 4, "Z2": 4}
+    floors = {"Z1": 4, "Z2": 4, "Z3": 1}
     decided = [
         "a state is presented as steady only after the convergence test passed; exhaustion of the step budget yields NoSteadyState",
         "a failure value can never be replaced by frames on its way to the caller (and becomes the NaN default in scans, C09/P4)",
     ]
     undecided = ["that the convergence criterion implies stationarity (depends on the model's relaxation time vs. the step size)",
                  "agreement with analytic steady states; balance of reported fluxes"]
-    assumptions = ["numpy.linalg.norm semantics"]
+    assumptions = ["numpy.linalg.norm semantics", "scipy.integrate.ode.integrate returns its internal state array (same object on every call) - verified against scipy 1.18.1 source"]
 
     def run(self) -> None:
         self.z1(SCIPY, "Scipy", confirmed=True)
@@ -85,6 +88,25 @@ class C15(Check):
             else:
                 rep("Z1", rel, q, "iterate-advanced", loops[0], "the reference iterate / the time is not advanced each step: convergence is tested against a stale state",
                     witness="any model: the first small step relative to the INITIAL state never occurs, or the same time is integrated repeatedly")
+        # Z3: aliasing of the stepper's output buffer
+        COPY = ("np.array", "numpy.array", "np.copy", "copy.deepcopy", "copy.copy", "np.asarray_chkfinite", "list", "tuple")
+        cur_assign = [s for s in walk_no_nested(fn) if isinstance(s, ast.Assign) and isinstance(s.targets[0], ast.Name)
+                      and any(isinstance(c, ast.Call) and isinstance(c.func, ast.Attribute) and c.func.attr == "integrate" and not norm(c.func.value).startswith("self") for c in ast.walk(s.value))]
+        if cur_assign and "y1" in norm(fn):
+            a = cur_assign[0]
+            cur = a.targets[0].id
+            v = a.value
+            copied_at_source = isinstance(v, ast.Call) and (norm(v.func) in COPY or (isinstance(v.func, ast.Attribute) and v.func.attr == "copy"))
+            carry = [s for s in walk_no_nested(fn) if isinstance(s, ast.Assign) and isinstance(s.value, (ast.Name, ast.Call)) and isinstance(s.targets[0], ast.Name)
+                     and cur in {n.id for n in ast.walk(s.value) if isinstance(n, ast.Name)} and s is not a and s.targets[0].id != cur]
+            copied_at_carry = bool(carry) and all(isinstance(s.value, ast.Call) and (norm(s.value.func) in COPY or (isinstance(s.value.func, ast.Attribute) and s.value.func.attr == "copy")) for s in carry)
+            if copied_at_source or copied_at_carry:
+                self.holds("Z3", rel, q, "previous-iterate-is-a-copy", a, f"`{norm(a)[:70]}`" + (" copies the stepper's output" if copied_at_source else "; the carried reference is copied"))
+            elif carry:
+                rep("Z3", rel, q, "previous-iterate-is-a-copy", carry[0],
+                    f"`{norm(carry[0])}` keeps a reference to the array returned by `{norm(a.value)[:40]}`; scipy.integrate.ode.integrate returns its internal state "
+                    "buffer (the same object every call), so the 'previous' state is overwritten by the next step and the change is always zero",
+                    witness="dx/dt = k (no steady state): simulate_to_steady_state() reports success with x = k*200 at t = 200")
         # fall-through is the failure value
         last = strip_docstring(fn.body)[-1]
         if isinstance(last, ast.Return) and norm(last.value) == "Result(NoSteadyState())":
@@ -141,6 +163,7 @@ class C15(Check):
             Variant("no-test", SCIPY, I, "if np.linalg.norm(diff, ord=2) < tolerance:", "if True:", expect="Z1|"),
             Variant("iterate-not-advanced", SCIPY, I, "        y1 = y2\n", "", expect="Z1|", quick=True),
             Variant("diff-against-self", SCIPY, I, "diff = (y2 - y1) / y1 if rel_norm else y2 - y1", "diff = (y2 - y2) / y1 if rel_norm else y2 - y2", expect="Z1|"),
+            Variant("reintroduce-buffer-alias", SCIPY, I, "y2 = np.array(integ.integrate(t), dtype=float)", "y2 = integ.integrate(t)", expect="Z3|", quick=True),
             Variant("get-result-frames-first", SIM, "Simulator.get_result", "    if len(self._errors) > 0:\n        return Result(self._errors[0])\n", "", expect="Z2|", quick=True),
             Variant("failure-dropped", SIM, "Simulator._handle_simulation_results", "            self._errors.append(e)", "            pass", expect="Z2|"),
             Variant("default-always-value", TYPES, "Result.default", "        return fn()", "        return value", expect="Z2|"),
